@@ -17,6 +17,7 @@ RULE = ('strings: all strings of length <= 3 (quick) / <= 4 (thorough) over {a, 
         'integers of 1-30 digits, leading zeros, decimals; identifier paths of 1-4 parts x {plain, back-quoted, dot/space/keyword/'
         'digits-first}; variables; both directions (parse, print); non-trivial = value contains a quote, backslash, dot, keyword '
         'or non-ASCII character; distinct by (direction, kind, spelling, value, dialect)')
+RULE += '; also: CR/LF/control/zero-width characters in literals and names, blank-edged names, names identified by a case mapping (both orders in one process), 17-digit and exponent-range decimals read back by the library'
 ASSUMPTIONS = ['mindsdb dialect: doubled quote -> one quote, \\\' \\" \\\\ -> the escaped character; other backslash pairs are not judged',
                'mysql/sqlite dialects of this library: only the standard doubled-quote rule is demanded',
                'exponent notation (1e3) is outside "integers/decimals" and not judged',
